@@ -147,7 +147,8 @@ def _validate(ck, tmp, exe, name, cases, rng, demo):
     m = [l for l in rv.out.splitlines() if l.startswith('<<"counters"')]
     if m:
         v = [int(x) for x in m[-1].strip("<>").split(",")[1:]]
-        ck.extra["impl"]["collide/" + name].update({"tlc_fix_events": v[0], "tlc_resolved_steps_obliged": v[1], "tlc_neighbour_pairs_in_reach": v[2]})
+        ck.extra["impl"]["collide/" + name].update({"tlc_fix_events": v[0], "tlc_resolved_steps_obliged": v[1], "tlc_neighbour_pairs_in_reach": v[2],
+                                                     "tlc_overlap_ranges_compared_with_Merge": v[3], "tlc_neighbours_with_range_drift": v[4]})
     if not demo:
         return
     # binding demonstrations: (a) push a stored shift across its limit, (b) call a step that still collides "resolved"
@@ -199,6 +200,14 @@ def run(ck, tier, seed):
         return
     ck.add_tlc("Collide(step machine: AccumInLimit)", r)
     _neg("CollideMC.tla", "Collide_neg.cfg", "AccumInLimit")
+    # the twelve overlap-range formulas of mergeSlot against the geometry (the recorded ranges of the real collider
+    # are compared with the same formulas during trace validation)
+    r = vlib.tlc("MergeMC.tla", "Merge_quick.cfg" if q else "Merge_thorough.cfg", timeout=6000, coverage=False, heap="16g")
+    if r.violation:
+        ck.violation("TLC: %s violated in Merge (overlap ranges of mergeSlot vs geometry)" % r.violation, {"why": "Merge model", "trace": vlib.tlc_error_trace(r.out)})
+        return
+    ck.add_tlc("Merge(overlap-range formulas sound and tight on the grid)", r)
+    _neg("MergeMC.tla", "Merge_neg.cfg", "SoundM")
     if not _zones(ck, tier, seed, tmp, exe):
         return
     _validate(ck, tmp, exe, "arrangements", _arrangements(ck, tier, seed, tmp), rng, True)
